@@ -188,7 +188,15 @@ class CliTask(CoreTask):
 
     def cache_key(self):
         from pyvc import driver
-        return "cli|%s|%s|%s" % (self.name, self.timeout_ms, driver.dep_hash(self.root, modules=("cli", "validators", "exceptions")))
+        extra = ""
+        if self.which == "main":
+            import hashlib
+            import os as _os
+            try:
+                extra = hashlib.sha256(open(_os.path.join(self.root, "jsonschema", "__main__.py"), "rb").read()).hexdigest()[:12]
+            except OSError:
+                extra = "missing"
+        return "cli|%s%s|%s|%s" % (self.name, extra, self.timeout_ms, driver.dep_hash(self.root, modules=("cli", "validators", "exceptions")))
 
     def _run_validate_instance(self, res):
         """_validate_instance: one validation_error call per error of iter_errors(instance), a
@@ -452,3 +460,83 @@ _old_cli_tasks = cli_tasks
 
 def cli_tasks(root, timeout_ms=10000):      # noqa: F811
     return _old_cli_tasks(root, timeout_ms) + [CliTask(root, "outputter", timeout_ms)]
+
+
+# ---------------------------------------------------------------------------------------------------
+# cli.main: the process exit status is what run() returns
+
+class _ParsedArgs:
+    pass
+
+
+def main_task_run(self, res):
+    """main(args): parse_args(args) is handed to run() and the process exits through sys.exit with exactly the status run()
+    returns (never returns normally, never swallows the status); __main__.py does nothing but call main()"""
+    import ast as _ast
+    repo = extract.Repo(self.root)
+    unit = repo.unit("cli:main")
+    res["function"], res["source_hash"] = unit.key, unit.source_hash()
+    ctx = Ctx(repo, contracts={}, config={})
+    code = SV(z3.Const("status_of_run", V))
+    parsed = _ParsedArgs()
+    given = SV(z3.Const("argv", V))
+    calls = []
+
+    class RunC(core.Contract):
+        key = "cli:run"
+
+        def apply(self, I, st, a, k, fref):
+            calls.append(("run", a, k))
+            return [(st, code)]
+
+    class ParseC(core.Contract):
+        key = "cli:parse_args"
+
+        def apply(self, I, st, a, k, fref):
+            calls.append(("parse_args", a, k))
+            return [(st, parsed)]
+    ctx.contracts[RunC.key], ctx.contracts[ParseC.key] = RunC(), ParseC()
+
+    def builtin_hook(I, st, name, a, k, node):
+        if name == "sys.exit":
+            v = a[0] if a else lift(None)
+            return [(st, Raised(ExcVal("SystemExit", {"code": v}, origin="sys.exit")))]
+        return None
+    ctx.config["builtin_hook"] = builtin_hook
+    I = Interp(ctx)
+    st = State()
+    st.unit = unit
+    outs = I.run_unit(unit, st, [given], {})
+    res["paths"] = len(outs)
+    obls = list(ctx.obligations)
+    for n, (s, ctl) in enumerate(outs):
+        nm = "%s/F/exit#%d" % (self.name, n + 1)
+        ok = ctl[0] == "raise" and ctl[1].cls == "SystemExit" and ctl[1].fields.get("code") is code
+        runs = [c for c in calls if c[0] == "run"]
+        parses = [c for c in calls if c[0] == "parse_args"]
+        ok = ok and len(runs) == 1 and len(parses) == 1
+        if ok:
+            ra = list(runs[0][1]) + list(runs[0][2].values())
+            pa = list(parses[0][1]) + list(parses[0][2].values())
+            ok = len(ra) == 1 and ra[0] is parsed and len(pa) == 1 and pa[0] is given
+        obls.append(core.Obligation(nm, "F", s.pc, z3.BoolVal(bool(ok)),
+                                    note="main exits through sys.exit(run(parse_args(args))): the status is exactly what run returned"))
+    self.finish(res, ctx, obls)
+    # __main__.py (module-level code, not a function): imports main and calls it
+    try:
+        import os as _os
+        src = open(_os.path.join(self.root, "jsonschema", "__main__.py")).read()
+        body = [n for n in _ast.parse(src).body if not (isinstance(n, _ast.Expr) and isinstance(n.value, _ast.Constant))]
+        ok = len(body) == 2 and _ast.unparse(body[0]) == "from jsonschema.cli import main" and _ast.unparse(body[1]) == "main()"
+    except Exception:      # noqa
+        ok = False
+    res["obligations"].append({"name": "%s/T/__main__" % self.name, "kind": "T", "status": "discharged" if ok else "failed", "solver": "tables",
+                               "note": "python -m jsonschema runs cli.main() and nothing else"})
+
+
+CliTask._run_main = main_task_run
+_old_cli_tasks2 = cli_tasks
+
+
+def cli_tasks(root, timeout_ms=10000):      # noqa: F811
+    return _old_cli_tasks2(root, timeout_ms) + [CliTask(root, "main", timeout_ms)]
